@@ -67,6 +67,12 @@ struct Known {
     hashes: BTreeSet<String>,
 }
 
+/// All witness hashes listed for `property` in known_findings.json (read-only).
+pub fn known_hashes(property: &str) -> BTreeSet<String> {
+    let r = Report::new(property, Tier::Quick, "other");
+    r.load_known().into_iter().flat_map(|k| k.hashes).collect()
+}
+
 impl Report {
     pub fn new(property: &str, tier: Tier, level: &'static str) -> Self {
         let seed = std::env::var("VERIF_SEED").ok().and_then(|s| s.parse().ok()).unwrap_or(0);
